@@ -59,7 +59,7 @@ fn opts<'a>(cols: &'a [usize]) -> PredOpts<'a> {
 // ---- C03 ------------------------------------------------------------------------------------------
 
 pub fn gen_c03(r: &mut Rng, tier: &str) -> Vec<Case> {
-    let n_tables = if tier == "thorough" { 500 } else { 60 };
+    let n_tables = if tier == "thorough" { 300 } else { 60 };
     let mut cases = vec![];
     for ti in 0..n_tables {
         let n = nrows(r, ti);
@@ -131,7 +131,7 @@ fn filtered_count(q: &Query, t: &Table) -> usize {
 }
 
 pub fn gen_c05(r: &mut Rng, tier: &str) -> Vec<Case> {
-    let n_tables = if tier == "thorough" { 500 } else { 50 };
+    let n_tables = if tier == "thorough" { 300 } else { 50 };
     let mut cases = vec![];
     for ti in 0..n_tables {
         let n = nrows(r, ti);
@@ -283,7 +283,7 @@ fn gen_agg(r: &mut Rng, table: &Table, measures: &[usize]) -> Sel {
 }
 
 pub fn gen_c04(r: &mut Rng, tier: &str) -> Vec<Case> {
-    let n_tables = if tier == "thorough" { 400 } else { 40 };
+    let n_tables = if tier == "thorough" { 160 } else { 40 };
     let mut cases = vec![];
     for ti in 0..n_tables {
         let (n, card) = match ti % 8 {
@@ -345,7 +345,7 @@ pub fn gen_c04(r: &mut Rng, tier: &str) -> Vec<Case> {
 // ---- C02 ------------------------------------------------------------------------------------------
 
 pub fn gen_c02(r: &mut Rng, tier: &str) -> Vec<Case> {
-    let n_tables = if tier == "thorough" { 400 } else { 60 };
+    let n_tables = if tier == "thorough" { 250 } else { 60 };
     let mut cases = vec![];
     for ti in 0..n_tables {
         let n = match ti % 5 {
